@@ -808,11 +808,9 @@ def judge_lines(c, mode='frame'):
             if mode == 'log':
                 if r.startswith('PANIC'):
                     continue
-                evs = impl_events(c, i)
-                if evs is None:
-                    lines.append('L %s %s %s' % (hx(o[1]), r, 'unparsable'))
-                else:
-                    lines.append('L %s %s %s' % (hx(o[1]), r, ';'.join(','.join(e.split()[1:]) for e in evs) or '-'))
+                # the real logger's stdout, verbatim: read by the Lean reader Spec.parseConsole / parseLogfmt
+                lg = c['ops'][0][1]['logger']
+                lines.append('T %s %s %s %s' % (lg, hx(o[1]), r, ';'.join(l.encode('latin-1', 'replace').hex() or '0a' for l in b['log']) or '-'))
             else:
                 lines.append('F %s %s %d' % (hx(o[1]), r, b['t'] if b['t'] is not None else 0))
             idx.append(i)
@@ -877,6 +875,9 @@ def explore(prop, pd, tier, seed, replay=None):
     evaluations = 0
     byte_exact = 0
     compared = 0
+    text_lines = 0
+    text_drift = 0
+    text_samples = []
     tagdist = {}
     outdist = {'reply': 0, 'silent': 0, 'panic': 0}
     samples = []
@@ -937,6 +938,15 @@ def explore(prop, pd, tier, seed, replay=None):
                     ie = impl_events(c, i)
                     me = [l for l in b['log'] if l.startswith('EV ')]
                     evs_ok = ie is not None and len(ie) == len(me) and all(ev_equal(x, y) for x, y in zip(ie, me))
+                    # text level: the model's logger lines against the real logger's stdout (wall clock stripped)
+                    it = [strip_ts(l, c['ops'][0][1]['logger']) for l in a['log']]
+                    mt = [bytes.fromhex(l[3:]).decode('latin-1').rstrip('\n') for l in b['log'] if l.startswith('LN ')]
+                    text_lines += len(it)
+                    if it != mt:
+                        text_drift += 1
+                        if len(text_samples) < 3:
+                            bad = [(x, y) for x, y in zip(it, mt) if x != y][:2] or [(len(it), len(mt))]
+                            text_samples.append({'frame': o[1].hex() if o[0] == 'F' else None, 'differs': bad})
                 if a['r'] == b['r'] and a['t'] == b['t'] and evs_ok:
                     byte_exact += 1
                 elif not evs_ok:
@@ -967,7 +977,7 @@ def explore(prop, pd, tier, seed, replay=None):
     if disagreements and not violations and pd.get('judge'):
         found = focused_search(pd, rng, disagreements[:4])
         violations += found
-    if verdicts and len(verdicts) != len(jmap):
+    if len(verdicts) != len(jmap):
         disagreements.append({'what': 'judge produced %d verdicts for %d observations: %s' % (len(verdicts), len(jmap), err[:300])})
     if dead:
         violations.append({'clause': 'implementation driver died before finishing the op list', 'ops': []})
@@ -982,6 +992,9 @@ def explore(prop, pd, tier, seed, replay=None):
         'input_distribution': {'tags': tagdist, 'outcomes': outdist, 'cases': len(cases)},
         'release_build_evaluations': release_evals,
     }
+    if pd.get('judge_mode') == 'log':
+        cov['logger_text'] = {'lines_compared_with_model_text': text_lines, 'frames_with_text_drift': text_drift,
+                              'drift_samples': text_samples}
     return {'coverage': cov, 'violations': violations, 'disagreements': disagreements}
 
 
